@@ -2044,6 +2044,39 @@ fn analyze_structural(
 					};
 					typer.contextual_type = contextual_type;
 					let expression = member.expression.analyze(typer);
+					// The value must have the type of the member,
+					// as in an assignment to that member.
+					let name = match (name, expression.value_type())
+					{
+						(Ok(name), Some(Ok(value_type))) =>
+						{
+							let result = typer
+								.put_symbol(&name.inferred(), Some(Ok(value_type)));
+							match result
+							{
+								Ok(()) => Ok(name),
+								Err(Error::ConflictingTypes {
+									name,
+									current_type,
+									previous_type,
+									location: _,
+									previous,
+								}) =>
+								{
+									let error = Error::ConflictingTypesInAssignment {
+										name,
+										current_type,
+										previous_type,
+										location: expression.location().clone(),
+										previous,
+									};
+									Err(Poison::Error(error))
+								}
+								Err(error) => Err(Poison::Error(error)),
+							}
+						}
+						(name, _) => name,
+					};
 					MemberExpression {
 						name,
 						offset,
